@@ -80,6 +80,7 @@ var Mutants = map[string][]Mutant{
 		{"ToPDF forgets ReplaceArcs", "path.go", `\tp = p\.ReplaceArcs\(\)\n\n\tsb := strings\.Builder\{\}\n\tvar x, y float64\n\tfor i := 0; i < len\(p\.d\); \{\n\t\tcmd := p\.d\[i\]\n\t\tswitch cmd \{\n\t\tcase MoveToCmd:\n\t\t\tx, y = p\.d\[i\+1\], p\.d\[i\+2\]\n\t\t\tfmt\.Fprintf\(&sb, " %v %v m"`, "\tsb := strings.Builder{}\n\tvar x, y float64\n\tfor i := 0; i < len(p.d); {\n\t\tcmd := p.d[i]\n\t\tswitch cmd {\n\t\tcase MoveToCmd:\n\t\t\tx, y = p.d[i+1], p.d[i+2]\n\t\t\tfmt.Fprintf(&sb, \" %v %v m\"", "E10.consumer"},
 	},
 	"C04": {
+		{"arcs join passes the first circle's flag form for the second circle", "path_stroke.go", `(\t\tmid = closestArcIntersection\(c1, )0\.0 <= r1(, pivot, i0, i1\))`, "${1}r1 < 0.0${2}", "E11.arc-join-direction-flags"},
 		{"last x-monotone arc piece ends at a recomputed position (reverts fix efe7f4b)", "path_util.go", `(?s)\t\tpos := end // [^\n]*\n\t\tif !angleEqual\(t, theta1\) \{\n\t\t\tpos = EllipsePos\(rx, ry, phi, cx, cy, t\)\n\t\t\}\n`, "\t\tpos := EllipsePos(rx, ry, phi, cx, cy, t)\n", "E11.split-keeps-endpoint"},
 		{"radius change of an arc declared before the segment loop", "path_stroke.go", `(?s)(\tfor i, cur := range states \{\n)(.*?)\t\t\tdr := halfWidth\n`, "\tdr := halfWidth\n$1$2", "E11.sign-flip-per-iteration"},
 		{"non-circular arcs flattened with the package default tolerance", "path_util.go", `arcToCube\(start, rx, ry, phi, large, sweep, end\)\.Flatten\(tolerance\)`, "arcToCube(start, rx, ry, phi, large, sweep, end).Flatten(Tolerance)", "E11.tolerance-threaded"},
